@@ -782,16 +782,29 @@ Print Assumptions C13_count_non_air_translated.
 Print Assumptions C13_read_states_translated.
 Print Assumptions C13_read_biomes_translated.
 
-(* the two models of New{States,Biomes}PaletteContainerWithData agree (outcome class; on success the C12 container
-   viewed at field level IS the C13 container), for every length, data and palette - GUARD: palettes of at most
-   256 block states / 8 biomes, i.e. everything but the resolveIndirect branch, where the two models carry two
-   separately written resolve loops (that branch is covered on the C12 side by C13_from_save_vanilla) *)
-From GoMC Require Import Proofs.C13_refine.
-Theorem C13_with_data_refines_partial : forall gs gb biome len dat pat,
-  (Model.C12.zlen pat <= Model.C12.wide_limit (Model.C12.ckind (cf_of gs gb biome)))%Z ->
+(* THE TWO MODELS OF New{States,Biomes}PaletteContainerWithData AGREE FOR ALL INPUTS (outcome class; on success the C12
+   container viewed at field level IS the C13 container) - every length, data and palette, the resolveIndirect branch
+   (palettes above 256 block states / 8 biomes) included: the two separately written resolve loops and the two
+   bits.Len are proved equal (C13_resolve_same), Get on the two views is one function (C13_get_refines), and so the
+   section part of ChunkFromSave over C12's model (the subject of C13_from_save_vanilla) and over the field-level
+   model (the subject of C13_save, the model the driver runs) give the same section (C13_from_save_sec_refines) *)
+From GoMC Require Import Proofs.C13_refine Proofs.C13_refine_full.
+Theorem C13_with_data_refines : forall gs gb biome len dat pat,
   refines (Model.C12.pc_with_data (cf_of gs gb biome) len dat pat) (with_data gs gb biome len dat pat).
-Proof. exact with_data_refines. Qed.
-Print Assumptions C13_with_data_refines_partial.
+Proof. exact with_data_refines_full. Qed.
+Theorem C13_resolve_same : forall len dat pat dbits,
+  res_same (Model.C12.resolve_indirect len dat pat dbits) (resolve len dat pat dbits).
+Proof. exact resolve_same. Qed.
+Theorem C13_get_refines : forall (c : Model.C12.pc) i, wc_get (to_w c) i = Model.C12.pc_get c i.
+Proof. exact get_same. Qed.
+Theorem C13_from_save_sec_refines : forall st_id bio_id is_air gs gb v,
+  sec_refines (from_save_sec_g Model.C12.pc (c12_mk gs gb) Model.C12.pc_get st_id bio_id is_air v)
+              (from_save_sec st_id bio_id is_air gs gb v).
+Proof. exact from_save_sec_refines. Qed.
+Print Assumptions C13_with_data_refines.
+Print Assumptions C13_resolve_same.
+Print Assumptions C13_get_refines.
+Print Assumptions C13_from_save_sec_refines.
 
 (* ==================== LAST WAVE: the write-side palette loops ==================== *)
 From GoMC Require Import Proofs.C13_skel_palette_w.
@@ -846,3 +859,148 @@ Theorem C13_set_flags_mask : forall p, (List.length p <= 4096)%nat -> set_flags 
 Proof. exact set_flags_all. Qed.
 Print Assumptions C13_light_collect_translated.
 Print Assumptions C13_set_flags_mask.
+
+(* ==================== FINAL WAVE: ChunkFromSave on ANY save chunk; three more translated bodies ==================== *)
+From GoMC Require Import Proofs.C13_from_save_any Proofs.C13_skel_bodies.
+
+(* ChunkFromSave for an ARBITRARY save chunk: any section list (any order, repeated Y, Y outside the chunk), any height-map
+   table.  sec_good v: the index int32(Y) - YPos is inside 0..secs-1 and the section converts (from_save_sec).
+   SUCCESS (C13_from_save_any): when every section is good and every PRESENT height-map key has the wanted number of longs,
+   the result has one slot per save section; slot j is the conversion of the LAST section whose index is j (last_for),
+   a slot no section names is the zero Section (None), nothing else is written; each of the six height maps is the
+   storage of the chunk's geometry over the longs under ITS OWN key, zero-filled when the key is absent (hm_store);
+   the status is kept.  FAILURE: the first section in list order that is not good decides - out of range is an
+   error, otherwise the outcome of its conversion (C13_from_save_any_bad_section); a present key of the wrong length is
+   an error (C13_from_save_any_bad_heightmap).  These are all the cases (C13_from_save_any_inv). *)
+Theorem C13_from_save_any : forall st_id bio_id is_air gs gb (c : schunk) want,
+  Forall (sec_good st_id bio_id is_air gs gb (sc_ypos c) (nsecs c)) (sc_secs c) ->
+  calc_size (hm_bits (lenN (sc_secs c))) hm_len = Some want -> hm_lens_ok c want ->
+  exists ss, from_save st_id bio_id is_air gs gb c =
+    SOk (ss, mkHM (hm_store (lenN (sc_secs c)) want (hm_lookup kWSWG (sc_hm c)))
+                  (hm_store (lenN (sc_secs c)) want (hm_lookup kWS (sc_hm c)))
+                  (hm_store (lenN (sc_secs c)) want (hm_lookup kOFWG (sc_hm c)))
+                  (hm_store (lenN (sc_secs c)) want (hm_lookup kOF (sc_hm c)))
+                  (hm_store (lenN (sc_secs c)) want (hm_lookup kMB (sc_hm c)))
+                  (hm_store (lenN (sc_secs c)) want (hm_lookup kMBNL (sc_hm c))), sc_status c) /\
+    List.length ss = List.length (sc_secs c) /\
+    forall j, nth j ss None = match last_for (sc_ypos c) j (sc_secs c) with
+                              | Some v => conv_opt st_id bio_id is_air gs gb v | None => None end.
+Proof. exact from_save_any_ok. Qed.
+Theorem C13_from_save_any_bad_section : forall st_id bio_id is_air gs gb (c : schunk) pre v post,
+  sc_secs c = (pre ++ v :: post)%list -> Forall (sec_good st_id bio_id is_air gs gb (sc_ypos c) (nsecs c)) pre ->
+  ~ sec_good st_id bio_id is_air gs gb (sc_ypos c) (nsecs c) v ->
+  from_save st_id bio_id is_air gs gb c = bad_result st_id bio_id is_air gs gb (sc_ypos c) (nsecs c) v.
+Proof. exact from_save_any_bad_section. Qed.
+Theorem C13_from_save_any_bad_heightmap : forall st_id bio_id is_air gs gb (c : schunk) want k l,
+  Forall (sec_good st_id bio_id is_air gs gb (sc_ypos c) (nsecs c)) (sc_secs c) ->
+  calc_size (hm_bits (lenN (sc_secs c))) hm_len = Some want ->
+  In k six_keys -> hm_lookup k (sc_hm c) = Some l -> Z.of_N (lenN l) <> want ->
+  from_save st_id bio_id is_air gs gb c = SErr.
+Proof. exact from_save_any_bad_heightmap. Qed.
+Theorem C13_from_save_any_inv : forall st_id bio_id is_air gs gb (c : schunk) r,
+  from_save st_id bio_id is_air gs gb c = SOk r ->
+  Forall (sec_good st_id bio_id is_air gs gb (sc_ypos c) (nsecs c)) (sc_secs c) /\
+  exists want, calc_size (hm_bits (lenN (sc_secs c))) hm_len = Some want /\ hm_lens_ok c want.
+Proof. exact from_save_any_inv. Qed.
+(* what the definitions used above are *)
+Theorem C13_from_save_any_terms : forall st_id bio_id is_air gs gb ypos secs v (c : schunk) want (n : N) raw,
+  (sec_good st_id bio_id is_air gs gb ypos secs v <->
+     (((sx32 (u32 (ss_y v - ypos)) <? 0) || (secs <=? sx32 (u32 (ss_y v - ypos))))%Z = false /\
+      exists s, from_save_sec st_id bio_id is_air gs gb v = SOk s)) /\
+  (hm_lens_ok c want <-> forall k, In k [kWSWG; kWS; kOFWG; kOF; kMB; kMBNL] ->
+     match hm_lookup k (sc_hm c) with Some l => Z.of_N (lenN l) = want | None => True end) /\
+  hm_store n want raw =
+    Some (mkBS (match raw with Some l => l | None => repeat 0%N (Z.to_nat want) end)
+               (mk_mask (hm_bits n)) (hm_bits n) 256%Z (Z.quot 64 (hm_bits n))) /\
+  nsecs c = Z.of_N (lenN (sc_secs c)).
+Proof. intros. split; [reflexivity|]. split; [reflexivity|]. split; reflexivity. Qed.
+
+(* ... and with the sections in the VANILLA LAYOUT (any palette size, resolveIndirect included): every block state and
+   every biome of the LAST section naming slot j is at slot j (Get at every position gives the array C12's independent
+   reader of the layout gives for that section), with the recount and its light arrays *)
+Theorem C13_from_save_vanilla_chunk : forall st_id bio_id is_air gs gb,
+  Proofs.C12.wfcfg (cf_of gs gb false) -> Proofs.C12.wfcfg (cf_of gs gb true) ->
+  forall (c : schunk) want,
+  (forall v, In v (sc_secs c) -> oob (sc_ypos c) (nsecs c) v = false /\ exists a b, vanilla_sec st_id bio_id gs gb v a b) ->
+  calc_size (hm_bits (lenN (sc_secs c))) hm_len = Some want -> hm_lens_ok c want ->
+  exists ss, from_save st_id bio_id is_air gs gb c =
+    SOk (ss, mkHM (hm_store (lenN (sc_secs c)) want (hm_lookup kWSWG (sc_hm c)))
+                  (hm_store (lenN (sc_secs c)) want (hm_lookup kWS (sc_hm c)))
+                  (hm_store (lenN (sc_secs c)) want (hm_lookup kOFWG (sc_hm c)))
+                  (hm_store (lenN (sc_secs c)) want (hm_lookup kOF (sc_hm c)))
+                  (hm_store (lenN (sc_secs c)) want (hm_lookup kMB (sc_hm c)))
+                  (hm_store (lenN (sc_secs c)) want (hm_lookup kMBNL (sc_hm c))), sc_status c) /\
+    List.length ss = List.length (sc_secs c) /\
+    forall j, match last_for (sc_ypos c) j (sc_secs c) with
+              | None => nth j ss None = None
+              | Some v => sidx (sc_ypos c) v = Z.of_nat j /\ In v (sc_secs c) /\
+                          exists s, nth j ss None = Some s /\
+                                    forall a b, vanilla_sec st_id bio_id gs gb v a b -> sec_holds is_air v a b s
+              end.
+Proof. exact from_save_vanilla_chunk. Qed.
+Theorem C13_sec_holds_meaning : forall is_air v a b (s : sect wcont),
+  sec_holds is_air v a b s <->
+  (List.length a = 4096%nat /\ List.length b = 64%nat /\
+   (forall i, (i < 4096)%nat -> wc_get (s_states s) (Z.of_nat i) = ORet (nth i a 0%Z)) /\
+   (forall i, (i < 64)%nat -> wc_get (s_biomes s) (Z.of_nat i) = ORet (nth i b 0%Z)) /\
+   s_count s = non_air is_air a /\ s_sky s = ss_sky v /\ s_blk s = ss_blk v).
+Proof. intros. reflexivity. Qed.
+
+(* the hypotheses are satisfiable on a chunk with a REPEATED Y, sections out of order and a slot nobody names: three
+   save sections with Y = -4, -3, -4 (YPos -4), single-valued palettes, no height-map key present: ChunkFromSave
+   succeeds, slot 0 holds the LAST section with Y = -4, slot 1 the section with Y = -3, slot 2 is the zero Section, the
+   height maps are zero-filled storages of 26 longs at 6 bits; by C13_from_save_any_inv the premises of
+   C13_from_save_any hold for it *)
+Definition ex_dup_chunk : schunk :=
+  mkSC [mkSS (-4)%Z [([5%N], (10%N, [0%N]))] [] [[98%N; 7%N]] [] (Some [1%N]) None;
+        mkSS (-3)%Z [([9%N], (10%N, [0%N]))] [] [[98%N; 8%N]] [] None None;
+        mkSS (-4)%Z [([0%N], (10%N, [0%N]))] [] [[98%N; 9%N]] [] None (Some [7%N])] [] [1%N] (-4)%Z.
+Example C13_ex_from_save_dup :
+  Forall (sec_good ex_st_id ex_bio_id (fun v => Z.eqb v 0) 15 6 (sc_ypos ex_dup_chunk) (nsecs ex_dup_chunk)) (sc_secs ex_dup_chunk) /\
+  (exists want, calc_size (hm_bits (lenN (sc_secs ex_dup_chunk))) hm_len = Some want /\ hm_lens_ok ex_dup_chunk want) /\
+  match from_save ex_st_id ex_bio_id (fun v => Z.eqb v 0) 15 6 ex_dup_chunk with
+  | SOk (ss, hm, st) =>
+      map (fun o => match o with Some x => Some (s_count x, wc_get (s_states x) 17, wc_get (s_biomes x) 3, s_sky x, s_blk x) | None => None end) ss
+        = [Some (0%Z, ORet 0%Z, ORet 9%Z, None, Some [7%N]); Some (4096%Z, ORet 9%Z, ORet 8%Z, None, None); None] /\
+      match hWS hm with Some b => data b = repeat 0%N 26 /\ bits b = 6%Z | None => False end
+  | _ => False
+  end.
+Proof.
+  remember (from_save ex_st_id ex_bio_id (fun v => Z.eqb v 0) 15 6 ex_dup_chunk) as r eqn:E0.
+  assert (E: r = from_save ex_st_id ex_bio_id (fun v => Z.eqb v 0) 15 6 ex_dup_chunk) by exact E0.
+  vm_compute in E. rewrite E in E0.
+  destruct (from_save_any_inv _ _ _ _ _ _ _ (eq_sym E0)) as [G W]. split; [exact G|]. split; [exact W|].
+  rewrite E. split; [reflexivity|]. split; reflexivity.
+Qed.
+
+(* THREE MORE BODIES INTERPRETED (they were under skeleton comparison only).
+   Section.SetBlock: the model's set_block IS the statement-by-statement interpretation of the translated body
+   (`if !IsAir(Get(i)) { BlockCount-- }; if !IsAir(v) { BlockCount++ }; States.Set(i, v)`, int16 updates the
+   translated expressions), and a whole history is the body run once per call - so C13_count speaks of the translated code *)
+Theorem C13_set_block_translated :
+  forall (cont : Type) (pc_get : cont -> Z -> Z) (pc_set : cont -> Z -> Z -> cont) (is_air : Z -> bool) ops s iv,
+  sb_body cont pc_get pc_set is_air s iv = SOk (set_block cont pc_get pc_set is_air s iv) /\
+  sb_run cont pc_get pc_set is_air s ops = SOk (set_blocks cont pc_get pc_set is_air s ops).
+Proof. intros. split; [apply set_block_interp|apply set_blocks_interp]. Qed.
+(* bitSetRev: `rev := make(pk.BitSet, len(set)); for i := range rev { rev[i] = ^set[i] }; return rev` interpreted over any
+   mask gives the model's rev_longs (the inverted light masks of lightData.WriteTo) *)
+Theorem C13_bitSetRev_translated : forall set, rv_run set = SOk (rev_longs set).
+Proof. exact bitSetRev_interp. Qed.
+(* BlockEntity.WriteTo: `data := pk.NBT(b.Data); if b.Data.Type == nbt.TagEnd { data = pk.NBT(nil) }; return pk.Tuple{...,
+   data}.WriteTo(w)`: the interpretation of the body (the branch, then the translated tuple with `data` bound to what the
+   branch left) is the model's be_write *)
+Theorem C13_block_entity_write_body_translated : forall b,
+  interp_c 8 (bw_step b) (bw_test b) c13_BlockEntity_WriteTo_body ([], None)
+  = SOk (raw_img b, Some (fst (be_write (bent_val b)))).
+Proof. exact be_write_body_interp. Qed.
+
+Print Assumptions C13_from_save_any.
+Print Assumptions C13_from_save_any_bad_section.
+Print Assumptions C13_from_save_any_bad_heightmap.
+Print Assumptions C13_from_save_any_inv.
+Print Assumptions C13_from_save_any_terms.
+Print Assumptions C13_from_save_vanilla_chunk.
+Print Assumptions C13_sec_holds_meaning.
+Print Assumptions C13_set_block_translated.
+Print Assumptions C13_bitSetRev_translated.
+Print Assumptions C13_block_entity_write_body_translated.
